@@ -50,19 +50,26 @@ inductive Err where
 def Err.tag : Err → String
   | .secretSize => "secret-size" | .short => "short" | .noInit => "no-init"
 
-/-- `keys.createStreams(init, secret)`.  All four slices lie inside `init[8:56]` (`mid`):
-`init[8:40] = mid[:32]`, `init[40:56] = mid[32:48]`, `initRev = reverse mid`. -/
+/-- `l[lo:hi]`. -/
+def slice (l : Bytes) (lo hi : Nat) : Bytes := (l.drop lo).take (hi - lo)
+
+/-- `copy(l[lo:], v)` (for `lo + len v ≤ len l`). -/
+def setAt (l : Bytes) (lo : Nat) (v : Bytes) : Bytes := l.take lo ++ v ++ l.drop (lo + v.length)
+
+/-- `keys.createStreams(init, secret)`.  Every byte range is the one found in the current source
+(`Facts.C18.*Lo/Hi`: `init[8:40]`, `init[40:56]`, `initRev = reverse(init[8:56])`, `initRev[:32]`,
+`initRev[32:48]`, `secret[0:16]`, error below 16). -/
 def createStreams (sha : Bytes → Bytes) (init secret : Bytes) : Except Err Keys :=
-  let mid := (init.drop 8).take 48
-  let encryptKey := mid.take 32
-  let encryptIV := (mid.drop 32).take 16
-  let initRev := mid.reverse
-  let decryptKey := initRev.take 32
-  let decryptIV := (initRev.drop 32).take 16
+  let encryptKey := slice init Facts.C18.encKeyLo Facts.C18.encKeyHi
+  let encryptIV := slice init Facts.C18.encIVLo Facts.C18.encIVHi
+  let initRev := if Facts.C18.decryptInitIsReversed then (slice init Facts.C18.revLo Facts.C18.revHi).reverse
+    else slice init Facts.C18.revLo Facts.C18.revHi
+  let decryptKey := slice initRev Facts.C18.decKeyLo Facts.C18.decKeyHi
+  let decryptIV := slice initRev Facts.C18.decIVLo Facts.C18.decIVHi
   if secret.length > 0 then
-    if secret.length < 16 then .error .secretSize
+    if secret.length < Facts.C18.secretMin then .error .secretSize
     else
-      let sec := secret.take 16
+      let sec := slice secret Facts.C18.secretCutLo Facts.C18.secretCutHi
       .ok { encrypt := ⟨sha (encryptKey ++ sec), encryptIV, 0⟩, decrypt := ⟨sha (decryptKey ++ sec), decryptIV, 0⟩ }
   else .ok { encrypt := ⟨encryptKey, encryptIV, 0⟩, decrypt := ⟨decryptKey, decryptIV, 0⟩ }
 
@@ -97,9 +104,12 @@ def clientKeys (X : Cipher) (sha : Bytes → Bytes) (init tag : Bytes) (dc : Int
   match createStreams sha init secret with
   | .error e => .error e
   | .ok k =>
-    let init' := init.take 56 ++ tag ++ putDC dc ++ init.drop 62
+    -- copy(init[56:60], protocol[:]); PutUint16(init[60:62], uint16(dc))
+    let init' := setAt (setAt init Facts.C18.tagLo tag) Facts.C18.dcLo (putDC dc)
     let (encInit, enc') := k.encrypt.xor X init'
-    .ok (init'.take 56 ++ (encInit.drop 56).take 8, { k with encrypt := enc' })
+    -- copy(k.header, init[0:56]); copy(k.header[56:], encryptedInit[56:56+8])
+    .ok (slice init' Facts.C18.hdrPlainLo Facts.C18.hdrPlainHi ++ slice encInit Facts.C18.hdrEncLo Facts.C18.hdrEncHi,
+         { k with encrypt := enc' })
 
 /-- `Obfuscated2.Handshake` with the random source's tape. -/
 def handshake (X : Cipher) (sha : Bytes → Bytes) (tape tag : Bytes) (dc : Int) (secret : Bytes) :
@@ -115,17 +125,17 @@ structure Meta where
 
 /-- `Accept(conn, secret)` on the 64 header bytes: metadata and the server's streams. -/
 def accept (X : Cipher) (sha : Bytes → Bytes) (header secret : Bytes) : Except Err (Meta × Keys) :=
-  if header.length < 64 then .error .short
+  if header.length < Facts.C18.headerLen then .error .short
   else
-    let buf := header.take 64
+    let buf := header.take Facts.C18.headerLen
     match createStreams sha buf secret with
     | .error e => .error e
     | .ok k =>
       -- swap to match the client's streams
-      let k' : Keys := { encrypt := k.decrypt, decrypt := k.encrypt }
+      let k' : Keys := if Facts.C18.acceptSwaps then { encrypt := k.decrypt, decrypt := k.encrypt } else k
       let (decrypted, dec') := k'.decrypt.xor X buf
-      let proto := (decrypted.drop 56).take 4
-      let dcb := (decrypted.drop 60).take 2
+      let proto := slice decrypted Facts.C18.metaTagLo Facts.C18.metaTagHi
+      let dcb := slice decrypted Facts.C18.metaDCLo Facts.C18.metaDCHi
       .ok ({ protocol := proto, dc := (dcb.headD 0).toNat + 256 * ((dcb.drop 1).headD 0).toNat },
            { k' with decrypt := dec' })
 
